@@ -23,11 +23,16 @@ def tname(i):
     return '@t%d' % i
 
 
+MIXED_ANN = [False]     # write type choices as `@a | @b // {type: "mixed"}` (the same schema, said twice)
+
+
 def text(n, indent, is_prop, comma=''):
     """schema text of a node followed by `comma`; the comma of a scalar goes before its annotation"""
     pad = '  ' * indent
     k = n[0]
     rules = []
+    if k == 'R' and len(n[3]) > 1 and MIXED_ANN[0]:
+        rules.append('type: "mixed"')
     if n[1] and is_prop:
         rules.append('optional: true')
     if n[2]:
@@ -112,8 +117,9 @@ class Prop:
     theorems_file = 'Properties/C06.v'
     exhaustive_note = ''
 
-    def mk(self, rootnode, types, style):
+    def mk(self, rootnode, types, style, mixed=False):
         """root is type 0 (its file name is @t0); types: dict index -> node (indices >= 1)"""
+        MIXED_ANN[0] = mixed
         types = dict(types)
         types[0] = rootnode          # the checked type is registered under its own name as well
         g = ['0', style] + tok(rootnode)
@@ -147,6 +153,8 @@ class Prop:
             types = {i: ('O', 0, 0, [combo[i]]) for i in range(1, ntypes + 1)}
             for style in ('root', 'all'):
                 cs.append(Case(self.mk(root, types, style), 'exh-1prop'))
+            if any(len(k[3]) > 1 for k in combo if k[0] == 'R'):
+                cs.append(Case(self.mk(root, types, 'root', mixed=True), 'exh-1prop-mixed-annotated'))
             count += 1
         # the root with two properties (order matters: an earlier choice whose failed alternative leaves state behind)
         k2 = prop_kinds([0, 1, 2])
@@ -195,7 +203,7 @@ class Prop:
                 return ('O', 0, 0, [rnode(1) for _ in range(rng.randint(0, 3))])
             root = robj()
             types = {i: robj() for i in range(1, nt + 1)}
-            cs.append(Case(self.mk(root, types, rng.choice(['root', 'all'])), 'random'))
+            cs.append(Case(self.mk(root, types, rng.choice(['root', 'all']), mixed=rng.random() < 0.3), 'random'))
         return cs
 
     def parse(self, line):
